@@ -1,6 +1,7 @@
 import Tv.Thm.C10
 import Tv.Thm.C10Gen
 import Tv.Thm.C10GenB
+import Tv.Thm.C10GenC
 #print axioms Tv.C10.reads_in_bounds
 #print axioms Tv.C10.writes_once
 #print axioms Tv.C10.kernel_range_in_bounds
@@ -19,3 +20,9 @@ import Tv.Thm.C10GenB
 #print axioms Tv.C10GenB.perm_range_facts
 #print axioms Tv.C10GenB.trace_in_bounds
 #print axioms Tv.C10GenB.trace_present
+#print axioms Tv.C10GenC.reads_le_end
+#print axioms Tv.C10GenC.idx_calls_ok
+#print axioms Tv.C10GenC.idx2_calls_ok
+#print axioms Tv.C10GenC.kernel_reads_in_bounds
+#print axioms Tv.C10GenC.kernel2_reads_in_bounds
+#print axioms Tv.C10GenC.reads_present
